@@ -99,6 +99,26 @@ func (s srcSpec) build(buf []byte) []byte {
 			}
 		}
 		return b
+	case "S6":
+		b := buf[:0]
+		b = append(b, 'x')
+		for i := 0; i < s.Rep; i++ {
+			b = append(b, 'a')
+		}
+		t := make([]byte, s.Tail)
+		lcgFill(t, uint64(s.Rep)+1)
+		if len(t) > 0 && t[0] == 'a' {
+			t[0] = 'b'
+		}
+		return append(b, t...)
+	case "S5":
+		// incompressible prefix of exactly Pre bytes, then a repeat of 24 bytes found Dist back, then a tail
+		n := s.Pre + 24 + s.Tail
+		b := make([]byte, n)
+		lcgFill(b[:s.Pre], uint64(s.Pre))
+		copy(b[s.Pre:], b[s.Pre-s.Dist:s.Pre-s.Dist+24])
+		lcgFill(b[s.Pre+24:], 99)
+		return b
 	case "S4":
 		var b []byte
 		if cap(buf) >= s.Len {
@@ -139,6 +159,30 @@ func (s srcSpec) build(buf []byte) []byte {
 	panic("unknown family " + s.Fam)
 }
 
+// hcProbeBoundaries lists the literal-run lengths L <= max with (L-15)%255 == 0 that are probe
+// positions of a match-free scan starting at 0 with step 1+(si>>7) (the HC compressor's skip
+// strategy); the first few are 1 441 785 and 2 544 660.
+type probeBoundary struct {
+	pos   int
+	dists []int // distances back to earlier probe positions inside the 64 KiB window
+}
+
+func hcProbeBoundaries(max int) []probeBoundary {
+	var out []probeBoundary
+	var probes []int
+	for si := 0; si <= max; si += 1 + si>>7 {
+		if si >= 15 && (si-15)%255 == 0 && si > 4096 {
+			pb := probeBoundary{pos: si}
+			for k := len(probes) - 1; k >= 0 && si-probes[k] < 65536; k-- {
+				pb.dists = append(pb.dists, si-probes[k])
+			}
+			out = append(out, pb)
+		}
+		probes = append(probes, si)
+	}
+	return out
+}
+
 type srcEmit func(s srcSpec, src []byte)
 
 func enumSources(c *ev.Ctx, heavy bool, emit srcEmit) {
@@ -150,6 +194,28 @@ func enumSources(c *ev.Ctx, heavy bool, emit srcEmit) {
 		s4lens = append(s4lens, 1<<20, 4<<20-1, 4<<20)
 	} else {
 		s4lens = append(s4lens, 1<<20)
+	}
+	// S5: literal runs whose length is a length-code boundary (15+255k) AND a position the HC
+	// compressor's accelerating probe sequence (si += 1 + (si-anchor)>>7) actually visits, so that
+	// a match can start right after them; plus the same for the fast compressor's step.
+	for _, pb := range hcProbeBoundaries(3 << 20) {
+		for _, dist := range pb.dists {
+			if !c.Next() {
+				continue
+			}
+			s := srcSpec{Fam: "S5", Pre: pb.pos, Dist: dist, Tail: 40}
+			emit(s, s.build(buf))
+		}
+	}
+	// S6: one byte, a run of R equal bytes, an incompressible tail — every R up to 1100, so that the
+	// match ends exactly where the tail begins and its length takes every value across the
+	// length-code boundaries 19+255k
+	for r := 0; r <= 1100; r++ {
+		if !c.Next() {
+			continue
+		}
+		s := srcSpec{Fam: "S6", Rep: r, Tail: 16}
+		emit(s, s.build(buf))
 	}
 	for _, n := range []int{131073, 200000, 262144} {
 		for _, ct := range []string{"rep65535", "rep65536", "rep65537"} {
